@@ -12,6 +12,7 @@ use std::io::Write as _;
 use std::panic::{catch_unwind, AssertUnwindSafe};
 
 pub mod gen;
+pub mod fmtgen;
 
 pub const MODE: &str = if cfg!(debug_assertions) { "debug" } else { "release" };
 
